@@ -94,7 +94,7 @@ def gen(seed, tier):
             'pool_size': r.choice((1, 7)),
             'bufsize': r.choice((16, 64, 512, 8192, 65536)),
             'classes': ['Cell'] * ncell,
-            'sched': mvcc.sched_config(r), 'tick': 0.37, 'tier': tier,
+            'sched': mvcc.sched_config(r), 'tick': r.choice((0.37, 0.37, 1e-7)), 'tier': tier,
             'prefill': r.randint(1, 4)}
 
 
